@@ -19,6 +19,22 @@ def theorem_names():
     return re.findall(r"^\s*(?:Theorem|Corollary)\s+([A-Za-z0-9_']+)", src, re.M)
 
 
+def _self(f):
+    return ("bin", "DOT", ("sym", "self"), ("sym", f))
+
+
+_BASE = ("let", "base", ("tuple", [("greeting", ("str", "hi")), ("n", ("int", 2)), ("inner", ("tuple", [("k", ("int", 5))]))]))
+TARGETED = [
+    # `self` read inside the @{...} of an expression format, inside a callback, a select and a nested copy, all in a copy override
+    [_BASE, ("let", "t", ("copy", ("sym", "base"), [("msg", ("fmts", [("e", _self("greeting")), ("s", " there "), ("e", ("sym", "item"))], ("str", "bob")))]))],
+    [_BASE, ("let", "t", ("copy", ("sym", "base"), [("l", ("map", ("func", ["x"], ("bin", "Add", ("sym", "x"), _self("n"))), ("list", [("int", 1), ("int", 2)])))]))],
+    [_BASE, ("let", "t", ("copy", ("sym", "base"), [("s", ("select", ("str", "a"), ("int", 0), [("a", _self("n"))]))]))],
+    [_BASE, ("let", "t", ("copy", ("sym", "base"), [("inner", ("copy", _self("inner"), [("k2", ("bin", "Add", _self("k"), ("int", 1)))]))]))],
+    [_BASE, ("let", "t", ("copy", ("sym", "base"), [("m", ("fmts", [("s", "<"), ("e", ("fmts", [("e", _self("n"))], ("int", 0))), ("s", ">")], ("int", 1)))]))],
+    [_BASE, ("let", "f", ("func", ["b"], ("copy", ("sym", "b"), [("n2", ("bin", "Mul", _self("n"), ("int", 2)))]))), ("let", "t", ("call", ("sym", "f"), [("sym", "base")]))],
+]
+
+
 def gen_batch(rng, n, max_depth):
     progs, counts = [], {}
     for _ in range(n):
@@ -48,6 +64,7 @@ def run(tier, seed):
         raise RuntimeError("model runner does not build:\n" + msg[-1500:])
     n = 4000 if tier == "quick" else 20000
     progs, counts = gen_batch(ck.rng, n, 6 if tier == "quick" else 7)
+    progs = TARGETED + progs       # constructs nested in a way the generator reaches rarely
     # corpus of earlier disagreements runs first
     texts = [P.prog_text(p) for p in progs]
     impl = S.run_impl(texts)
